@@ -165,6 +165,9 @@ def tlc(ctx, module, cfg, workers=None, timeout=900, env=None, extra=None, tag=N
         cmd = ["java", "-XX:+UseParallelGC", "-Xss64m"]
         if heap:
             cmd.append("-Xmx" + heap)
+    tmpd = os.path.join(d, "jtmp")          # TLC leaves a tlc-<n> directory per run in java.io.tmpdir: keep it in the scratch
+    os.makedirs(tmpd, exist_ok=True)
+    cmd.append("-Djava.io.tmpdir=" + tmpd)
     cmd += ["-cp", _TLC_CP, "tlc2.TLC", "-metadir", os.path.join(d, "meta"), "-config", cfg,
             "-workers", str(workers or "auto")]
     if simulate:
